@@ -1,6 +1,11 @@
 """C12 - ThreadsafeForwardingResult: per-test atomicity under every interleaving.
 
-Input : [threads, schedule]   thread = [ops, faults]
+Input : [threads, schedule] | [threads, schedule, hints]   thread = [ops, faults] | [ops, faults, failfast]
+        failfast: `failfast` is assigned on this thread's forwarder (after an unsuccessful outcome it then calls stop())
+        hints = realisation hints, which do not change what the model predicts (atoms): sharedTests (all threads report the very
+                same test objects), emptyId (test 0 has the id ''), positional (outcome arguments given positionally), errNotDetails
+                (err / reason instead of details, details=None), twoTargets (the forwarders of odd threads wrap a second target
+                object behind the same semaphore; both write one log)
         op = ['time', None|['some', n]] | ['tags', [n..], [n..]] | ['startTest', id] | ['stopTest', id]
            | ['outcome', kind, id] | 'startTestRun' | 'stopTestRun' | 'stop' | 'done' | 'shouldStop'
         faults = indices into the thread's own sequence of calls on the target: those calls raise
@@ -19,16 +24,28 @@ ADD = {'success': 'addSuccess', 'error': 'addError', 'failure': 'addFailure', 's
 CTLS = ['startTestRun', 'stopTestRun', 'stop', 'done', 'shouldStop']
 
 
+EPOCH = datetime.datetime(1970, 1, 1, tzinfo=datetime.timezone.utc)
+HINTS = ['sharedTests', 'emptyId', 'positional', 'errNotDetails', 'twoTargets']
+
+
+def instant(n):
+    """explicit time n as a fresh tz-aware datetime object (equal instants are equal but not identical objects)"""
+    return EPOCH + datetime.timedelta(seconds=n)
+
+
 def canon_time(t):
     if t is None:
         return None
     if isinstance(t, datetime.datetime):
-        return 'wall'
-    return int(t)
+        d = (t - EPOCH).total_seconds() if t.tzinfo is not None else -1
+        return int(d) if 0 <= d < 10 ** 6 and d == int(d) else 'wall'
+    return 'not-a-datetime'
 
 
 def canon_id(test):
     i = test.id()
+    if i == '':
+        return 0
     return 'broken' if i.startswith('broken-runner') else int(i[1:])
 
 
@@ -75,13 +92,36 @@ class Target:
     def wasSuccessful(self): return True
 
 
-def apply_op(r, op, tests):
+def fake_exc_info():
+    try:
+        raise ValueError('reported error')
+    except ValueError:
+        import sys
+        return sys.exc_info()
+
+
+def report(r, kind, test, hints):
+    """call the add* method in one of the legal ways"""
+    m = getattr(r, ADD[kind])
+    if 'errNotDetails' in hints:
+        if kind in ('success', 'uxsuccess'):
+            return m(test) if 'positional' in hints else m(test, details=None)
+        x = 'some reason' if kind == 'skip' else fake_exc_info()
+        if 'positional' in hints:
+            return m(test, x)
+        return m(test, reason=x) if kind == 'skip' else m(test, err=x)
+    if 'positional' in hints:
+        return m(test, {}) if kind in ('success', 'uxsuccess') else m(test, None, {})
+    return m(test, details={})
+
+
+def apply_op(r, op, tests, hints=()):
     """perform one operation of a forwarder program on the real ThreadsafeForwardingResult `r`"""
     from testtools import PlaceHolder
 
     def test(i):
         if i not in tests:
-            tests[i] = PlaceHolder('broken-runner' if i == 'broken' else 't%d' % i)
+            tests[i] = PlaceHolder('broken-runner' if i == 'broken' else '' if (i == 0 and 'emptyId' in hints) else 't%d' % i)
         return tests[i]
     if isinstance(op, str):
         if op == 'shouldStop':
@@ -89,7 +129,7 @@ def apply_op(r, op, tests):
         else:
             getattr(r, op)()
     elif op[0] == 'time':
-        r.time(None if op[1] is None else op[1][1])
+        r.time(None if op[1] is None else instant(op[1][1]))
     elif op[0] == 'tags':
         r.tags(set(op[1]), set(op[2]))
     elif op[0] == 'startTest':
@@ -97,7 +137,7 @@ def apply_op(r, op, tests):
     elif op[0] == 'stopTest':
         r.stopTest(test(op[1]))
     elif op[0] == 'outcome':
-        getattr(r, ADD[op[1]])(test(op[2]), details={})
+        report(r, op[1], test(op[2]), hints)
     else:
         raise ValueError(op)
 
@@ -130,14 +170,19 @@ class C12(Prop):
     time_limit = {'quick': 45, 'thorough': 540}
     rule = ('1-4 real threads (mostly 2-3), each driving its own ThreadsafeForwardingResult through 0-3 tests (arbitrary outcomes, explicit/wall '
             'times, run-level and test-level tags, also start-less / unfinished tests) and control calls (startTestRun, stopTestRun, stop, done, '
-            'shouldStop), 0-3 raising target calls per case; schedules: quick = every schedule with <= 2 pre-emptions of 4 small base programs '
+            'shouldStop), 0-3 raising target calls per case (any call: time, startTest, tags, the outcome, stopTest, every control call); explicit times are fresh tz-aware '
+            'datetime objects drawn from a tiny pool, so equal instants in consecutive events and across threads - e.g. a test starting exactly on its predecessor\'s end - '
+            'are frequent, also time(None); tags() with empty sets and with the same tag added and removed; failfast assigned on some forwarders; realisation hints that leave '
+            'the prediction unchanged: all threads report the very same test objects / equal-but-not-identical ones, the empty test id, outcome arguments positional or by '
+            'keyword, err/reason instead of details (details=None), a second target object behind the same semaphore; '
+            'schedules: quick = every schedule with <= 2 pre-emptions of 6 small base programs '
             '+ random / bursty / few-pre-emption schedules of random programs; thorough adds every schedule with <= 3 pre-emptions for 2 threads and <= 2 for 3 '
             'threads, each also with every single fault position. non-trivial = at least two threads have a critical section; '
             'distinct = distinct input S-expression')
     assumptions = ['threading.Semaphore(1) semantics are modelled (harness/sched.py double), not verified',
                    'translator tie (harness/tfrskel.py, TTV/Model/TfrSkel.lean): trusted are the interpreter\'s reading of sequencing / if / try-finally / tail return, '
                    'that each recognised statement is the one atomic step (acquire, release, one call on the target) or forwarder-local assignment its name says, and that '
-                   'acquire/release do not raise; failfast on the forwarder is unset (the _stop_if_failfast() after unsuccessful outcomes is then a no-op; C04 covers it)',
+                   'acquire/release do not raise; `_stop_if_failfast()` is read as the fact "if self.failfast: self.stop()" plus the table of the methods that call it (modelled by Conc.runOp, theorem C12_src_thread_steps)',
                    'only operations on the shared semaphore and target are scheduling points: each forwarder is confined to its thread, as the property assumes; CPython pre-emption inside real.py is not explored',
                    'the target has no failfast attribute (the extra stop() of ExtendedToOriginalDecorator under failfast belongs to C04)',
                    'a fault is an exception raised by the target call - an Exception subclass or, depending on the position, a BaseException that is not an Exception (as KeyboardInterrupt is); faults are addressed per thread (k-th call of thread i), so a plan is schedule-independent',
@@ -173,27 +218,33 @@ class C12(Prop):
 
     # ----- implementation side
     def execute(self, inp):
-        threads, schedule = inp
+        threads, schedule = inp[0], inp[1]
+        hints = inp[2] if len(inp) > 2 else []
         from testtools import ThreadsafeForwardingResult
         sch = S.Scheduler(schedule)
         log = []
         sem = S.SchedSemaphore(sch, log)
         tgt = Target(sch, log, {i: set(t[1]) for i, t in enumerate(threads)})
+        tgt2 = Target(sch, log, tgt.faults)
+        tgt2.n = tgt.n                      # one fault plan and one log for both target objects
         exc = [[] for _ in threads]
+        shared = {}
 
-        def worker(i, ops):
+        def worker(i, ops, ff):
             def f():
-                r = ThreadsafeForwardingResult(tgt, sem)
-                tests = {}
+                r = ThreadsafeForwardingResult(tgt2 if ('twoTargets' in hints and i % 2) else tgt, sem)
+                if ff:
+                    r.failfast = True
+                tests = shared if 'sharedTests' in hints else {}
                 for op in ops:
                     try:
-                        apply_op(r, op, tests)
+                        apply_op(r, op, tests, hints)
                         exc[i].append(False)
                     except S.INJECTED:
                         exc[i].append(True)
             return f
         for i, t in enumerate(threads):
-            sch.spawn(i, worker(i, t[0]))
+            sch.spawn(i, worker(i, t[0], len(t) > 2 and t[2]))
         dl = sch.run()
         return sch, log, exc, dl
 
@@ -209,20 +260,24 @@ class C12(Prop):
         return [log, exc, dl is None and len(sch.done) == len(sch.order)]
 
     def step_counts(self, threads):
-        sch, log, exc, dl = self.execute([threads, []])
+        sch, log, exc, dl = self.execute([threads, []])     # (hints do not change the step counts)
         return tuple(sch.picks.count(i) for i in range(len(threads)))
 
     # ----- generators
+    def gen_time(self, rng):
+        # a tiny pool: equal instants in consecutive events and across threads are the rule, not the exception
+        return ['time', rng.choice([None, some(rng.randrange(3)), some(rng.randrange(3)), some(rng.randrange(20))])]
+
     def gen_test(self, rng, tid, wild):
         ops = []
         if rng.random() < 0.5:
-            ops.append(['time', rng.choice([None, some(rng.randrange(20))])])
+            ops.append(self.gen_time(rng))
         if rng.random() < 0.25:
             ops.append(self.gen_tags(rng))
         if not (wild and rng.random() < 0.3):
             ops.append(['startTest', tid])
         if rng.random() < 0.5:
-            ops.append(['time', rng.choice([None, some(rng.randrange(20))])])
+            ops.append(self.gen_time(rng))
         for _ in range(rng.choice([0, 0, 1, 1, 2])):
             ops.append(self.gen_tags(rng))
         ops.append(['outcome', rng.choice(KINDS), tid])
@@ -235,8 +290,12 @@ class C12(Prop):
         return ops
 
     def gen_tags(self, rng):
-        pool = list(range(5))
-        return ['tags', sorted(rng.sample(pool, rng.choice([0, 1, 1, 2]))), sorted(rng.sample(pool, rng.choice([0, 0, 1, 2])))]
+        pool = list(range(4))
+        new = sorted(rng.sample(pool, rng.choice([0, 1, 1, 2])))
+        gone = sorted(rng.sample(pool, rng.choice([0, 0, 1, 2])))
+        if new and rng.random() < 0.2:
+            gone = sorted(set(gone) | {new[0]})            # the same tag added and removed in one call
+        return ['tags', new, gone]
 
     def gen_thread(self, rng, wild):
         ops = []
@@ -255,15 +314,16 @@ class C12(Prop):
         return ops
 
     def calls_upper(self, ops):
-        return sum(7 if (not isinstance(o, str) and o[0] == 'outcome') else 1 if isinstance(o, str) else 0 for o in ops)
+        return sum(8 if (not isinstance(o, str) and o[0] == 'outcome') else 1 if isinstance(o, str) else 0 for o in ops)
 
     def gen_program(self, rng):
         n = rng.choice([1, 2, 2, 2, 3, 3, 3, 4])
         wild = rng.random() < 0.2
         threads = []
         nf = rng.choice([0, 0, 0, 0, 1, 1, 1, 2, 3])
+        ffp = rng.choice([0, 0, 0.5, 1])
         for i in range(n):
-            threads.append([self.gen_thread(rng, wild), []])
+            threads.append([self.gen_thread(rng, wild), []] + ([True] if rng.random() < ffp else []))
         for _ in range(nf):
             t = rng.choice(threads)
             up = self.calls_upper(t[0])
@@ -298,6 +358,11 @@ class C12(Prop):
             [[['startTestRun'] + t(0) + ['stopTestRun'], []], [[['tags', [1], []]] + t(0, 'skip') + ['stop'], []]],
             [[t(0), [3]], [t(0, 'failure'), [5]]],
             [[t(0), []], [t(0, 'xfail'), [1]], [['shouldStop', 'done'], []]],
+            # failfast on the forwarders: stop() follows the unsuccessful outcome unless something raised
+            [[t(0, 'error'), [], True], [t(0, 'failure'), [3], True]],
+            # a test that starts exactly on the instant its predecessor ended on, next to a thread using the same instants
+            [[[['time', some(1)]] + t(0) + [['startTest', 1], ['time', some(1)], ['outcome', 'skip', 1], ['stopTest', 1]], []],
+             [[['time', some(1)]] + t(0, 'uxsuccess'), []]],
         ]
 
     def systematic(self, programs, k):
@@ -328,13 +393,19 @@ class C12(Prop):
                 return nxt
             self._sys_left = 0
         threads = self.gen_program(rng)
-        return [threads, self.gen_schedule(rng, threads)]
+        hints = [h for h in HINTS if rng.random() < 0.2]
+        return [threads, self.gen_schedule(rng, threads)] + ([hints] if hints else [])
 
     def enumerate(self, tier):
         t = lambda i, k='success': [['startTest', i], ['outcome', k, i], ['stopTest', i]]
         two = [[t(0) + t(1, 'error'), []], [[['tags', [1], []]] + t(0, 'skip') + ['stop'], []]]
         three = [[t(0), []], [['startTestRun'] + t(0, 'failure'), []], [t(0, 'uxsuccess') + ['done'], []]]
         yield from self.systematic([two], 3)
+        ff = [[t(0, 'error') + t(1), [], True], [t(0, 'uxsuccess') + ['stop'], [], True]]
+        yield from self.systematic([ff], 2)
+        for ti in range(2):                                  # failfast x every single fault position
+            for f in range(12):
+                yield from self.systematic([[[x[0], [f] if j == ti else [], True] for j, x in enumerate(ff)]], 1)
         yield from self.systematic([three], 2)
         # every single fault position, <= 2 pre-emptions (2 threads) / <= 1 (3 threads)
         for base, k in ((two, 2), (three, 1)):
@@ -352,8 +423,19 @@ class C12(Prop):
         return len({e[0] for e in trace[0] if isinstance(e, list) and e[1] == 'acq'}) >= 2
 
     def features(self, inp, trace):
-        threads, schedule = inp
-        f = ['threads=%d' % len(threads)]
+        threads, schedule = inp[0], inp[1]
+        f = ['threads=%d' % len(threads)] + ['hint:' + h for h in (inp[2] if len(inp) > 2 else [])]
+        if any(len(t) > 2 and t[2] for t in threads):
+            f.append('failfast-forwarder')
+        times = [o[1][1] for t in threads for o in t[0] if not isinstance(o, str) and o[0] == 'time' and o[1] is not None]
+        if len(times) != len(set(times)):
+            f.append('equal-explicit-times')
+        if any(not isinstance(o, str) and o[0] == 'time' and o[1] is None for t in threads for o in t[0]):
+            f.append('time(None)')
+        if any(not isinstance(o, str) and o[0] == 'tags' and set(o[1]) & set(o[2]) for t in threads for o in t[0]):
+            f.append('tag-added-and-removed')
+        if any(not isinstance(o, str) and o[0] == 'tags' and not o[1] and not o[2] for t in threads for o in t[0]):
+            f.append('tags-both-empty')
         nt = sum(1 for t in threads for o in t[0] if not isinstance(o, str) and o[0] == 'outcome')
         f.append('outcomes=%s' % (nt if nt < 7 else '7+'))
         f.append('faults=%d' % sum(len(t[1]) for t in threads))
@@ -363,6 +445,15 @@ class C12(Prop):
             f.append('drained=%s' % ('0' if st[2] == 0 else '1+'))
         if isinstance(trace, list) and len(trace) == 3 and isinstance(trace[0], list):
             log = trace[0]
+            last_end = {}
+            for k, e in enumerate(log):          # a block whose start time is the explicit instant the thread's previous block ended on
+                if e[1] == 'call' and isinstance(e[2], list) and e[2][0] == 'time':
+                    first = k > 0 and log[k - 1][1] == 'acq'
+                    if first and isinstance(e[2][1], int) and last_end.get(e[0]) == e[2][1]:
+                        f.append('start-equals-previous-end')
+                        break
+                    if not first:
+                        last_end[e[0]] = e[2][1]
             owners = [e[0] for e in log if e[1] == 'acq']
             sw = sum(1 for a, b in zip(owners, owners[1:]) if a != b)
             f.append('section-switches=%s' % (sw if sw < 6 else '6+'))
@@ -379,21 +470,28 @@ class C12(Prop):
         return f
 
     def shrink(self, inp):
-        threads, schedule = inp
+        threads, schedule = inp[0], inp[1]
+        hints = inp[2] if len(inp) > 2 else []
+        tail = [hints] if hints else []
         n = len(threads)
+        for j in range(len(hints)):                          # drop a realisation hint
+            h = hints[:j] + hints[j + 1:]
+            yield [threads, schedule] + ([h] if h else [])
         for i in range(n):                                   # drop a thread
             if n > 1:
-                yield [threads[:i] + threads[i + 1:], [x - (x > i) for x in schedule if x != i]]
+                yield [threads[:i] + threads[i + 1:], [x - (x > i) for x in schedule if x != i]] + tail
         for i, t in enumerate(threads):
+            if len(t) > 2 and t[2]:                          # failfast off
+                yield [threads[:i] + [t[:2]] + threads[i + 1:], schedule] + tail
             for j in range(len(t[0])):                       # drop an operation
-                yield [threads[:i] + [[t[0][:j] + t[0][j + 1:], t[1]]] + threads[i + 1:], schedule]
+                yield [threads[:i] + [[t[0][:j] + t[0][j + 1:], t[1]] + t[2:]] + threads[i + 1:], schedule] + tail
             for j in range(len(t[1])):                       # drop a fault
-                yield [threads[:i] + [[t[0], t[1][:j] + t[1][j + 1:]]] + threads[i + 1:], schedule]
+                yield [threads[:i] + [[t[0], t[1][:j] + t[1][j + 1:]] + t[2:]] + threads[i + 1:], schedule] + tail
         if schedule:
-            yield [threads, []]
-            yield [threads, schedule[:len(schedule) // 2]]
+            yield [threads, []] + tail
+            yield [threads, schedule[:len(schedule) // 2]] + tail
             for j in range(len(schedule)):
-                yield [threads, schedule[:j] + schedule[j + 1:]]
+                yield [threads, schedule[:j] + schedule[j + 1:]] + tail
 
 
 PROP = C12()
